@@ -65,6 +65,19 @@ PROPS = {
     'C17': {'suites': [{'name': 'reg', 'quick': '-n 150 -ops 60', 'thorough': '-n 1500 -ops 120', 'shards': {'quick': 2, 'thorough': 16}}],
             'trusted_base': REG_TB, 'rule': REG_RULE,
             'assumptions': ['chain ids consist of bytes (hypothesis realbytes); the tx signer is the validator account (SDK GetSigners)']},
+    'C20': {'suites': [{'name': 'conn', 'bin': 'connharness', 'quick': '-n 400', 'thorough': '-n 5000', 'shards': {'quick': 2, 'thorough': 16}},
+                       {'name': 'cmd', 'bin': 'connharness', 'quick': '-n 6000', 'thorough': '-n 100000', 'shards': {'quick': 1, 'thorough': 8}}],
+            'trusted_base': [
+                'model: coq/Conn/Connector.v (ValidateAndComplete incl. common.IsHexAddress and big.Int.SetString(s,0) number syntax, strconv.Atoi, transaction classification, GetLatestMinterBlockAndNonce, LoadStatus/Commit, '
+                'the numbering of relayMinterEvents) is hand-written; tied to /repo by co-executing the real packages minter-connector/{minter,context,command} against a scripted Minter node (net/http/httptest serving /status and /blocks) '
+                'and by calling ValidateAndComplete on generated payloads',
+                'abstractions: bech32 validity of send_to_hub recipients is an input computed by sdk.AccAddressFromBech32 in the harness; JSON decoding of the payload is done by the implementation (the model receives the three strings, or "not JSON"); '
+                'the node answers every request and returns blocks in ascending order (an unreachable node makes the real loop retry forever: not modelled); the requests of 100 blocks are flattened into one ascending scan',
+                'relayMinterEvents lives in package main and needs a live hub connection: it is MODELLED, NOT CO-EXECUTED (its numbering theorem C20_event_nonces_canonical rests on reading the code); uint64 wrap-around of nonces is not modelled except for the uint64(nonce) cast of a multisig-edit payload'],
+            'rule': 'conn: chains of 8-38 (sometimes 150-270) blocks with 0-3 transactions each: sends to the multisig with valid / invalid commands (unknown type, bad recipient, fee syntax and bound variants, non-JSON payload, numeric fee field), sends elsewhere, '
+                    'multisends and multisig edits from the multisig or from strangers (payloads "12", "-2", "abc", "", overflow ...), other transaction types; 2-6 operations per case: restart+resync with acknowledged nonce 0 / behind / at / ahead of the cursor and a growing node height, '
+                    'status file corrupted, status file removed. Compared after every operation: the returned cursor and the status file. cmd: type x recipient x fee syntax x amount combinations.',
+            'assumptions': ['the configured start block is >= 0 and Minter blocks are numbered consecutively from 1', 'the Minter API returns the blocks of a range in ascending order (as the scripted node does)']},
     'C18': {'suites': [{'name': 'oracle', 'quick': '-n 300 -ops 80', 'thorough': '-n 4000 -ops 160', 'shards': {'quick': 2, 'thorough': 16}}],
             'trusted_base': [
                 'model: coq/Oracle/Oracle.v (MsgPriceClaim / MsgHoldersClaim handlers, attestation vote lists, tryAttestation threshold, GetNormalizedValPowers, the two AttestationHandler branches, ProcessCurrentEpoch, '
@@ -141,6 +154,11 @@ TEXT = {
     'C17': {'technique': 'Coq invariant by induction over registration histories + correspondence with real signatures',
             'level': 'Theorems for all histories: per chain an external address is bound to at most one validator; every validator->address and orchestrator->validator binding stems from a successful registration of that validator; success requires an unused address and orchestrator and a signature recovering to the address over (validator, sequence-1); orchestrators resolve to their validator. Monitors on the implementation.',
             'note': 'Trusted: Coq kernel, extraction + driver, Go harness; ECDSA recovery computed by go-ethereum in the harness.'},
+    'C20': {'technique': 'Coq invariant (whole-block cursor) over restart histories + characterisation of command validity + correspondence with the real connector packages on a scripted Minter node',
+            'level': 'Theorems for all block histories, acknowledged nonces, node heights and restart sequences (incl. lost or corrupt status file): every persisted and every returned cursor is the result of scanning a whole number of blocks from the configured start, '
+                     'hence next nonce = start nonce + number of bridge events at or below the last checked block; a relay round numbers its events consecutively from there (nonce independent of the restart history); '
+                     'a send is a deposit iff it goes to the multisig with a JSON command of known type, valid recipient and integer fee 0 <= f < amount - amount/100. PARTIAL: the relay loop is modelled but not co-executed (package main, needs a hub connection).',
+            'note': 'Trusted: Coq kernel, extraction + driver, Go harness with the scripted node; the model covers the tree after three connector fix: commits (negative fee, partial-block resync, corrupt status file).'},
     'C18': {'technique': 'Coq invariant over claim histories + order-independence lemma for the quorum + sorted-list proof of the weighted median + correspondence with the real x/oracle keeper',
             'level': 'Theorems for all histories and power distributions: epoch, prices and holders change at no step other than the epoch-boundary EndBlocker; voters are pairwise distinct and are exactly the validators with a stored (latest) report of the epoch; '
                      'the in-order early-exit quorum test equals "voters hold >= 66% of bonded power"; a boundary that changes prices/holders had that quorum; every stored price is the weighted median (half-weight bounds on both sides) of the latest reports; '
